@@ -34,6 +34,12 @@ UnRleFrom(r, i, acc) == IF i > Len(r) THEN acc
                         ELSE UnRleFrom(r, i + 1, Append(acc, r[i]))
 UnRle(r) == IF \A i \in 1..Len(r) : r[i] >= 0 THEN r ELSE UnRleFrom(r, 1, <<>>)
 
+(* The transcription lower-cases character by character.  Python's str.lower() does so too,
+   except for GREEK CAPITAL LETTER SIGMA (U+03A3), whose result depends on its neighbours; the
+   predicted name is therefore compared only in histories without that letter (the
+   properties Legal / Bounded / CaseUnique are judged for every history).                *)
+Transcribable(name) == \A j \in 1..Len(name) : name[j] # 931
+
 (* what the specification predicts for the call that was made *)
 Predict(ci, st, user, E) ==
   CASE st.fnk = "u" -> ToFileName(ci, user, E, st.p, st.s)
@@ -54,8 +60,8 @@ FnFrom(t, i, E, faithful) ==
        ELSE IF Len(out) > MaxLen THEN
               <<IF st.fnk = "u" /\ ReservedAfterClip(ci, user, st.p, st.s) THEN "fn:bounded:reserved-prefix-after-clip" ELSE "fn:bounded:other", i>>
        ELSE IF low \in E THEN <<IF low # outl \/ ~faithful THEN "fn:caseunique:contextual-lower" ELSE "fn:caseunique", i>>
-       ELSE IF faithful /\ t.predict = 1 /\ Predict(ci, st, user, E) # out THEN <<"fn:predicted", i>>
-       ELSE FnFrom(t, i + 1, E \cup {low}, faithful /\ low = outl)
+       ELSE IF faithful /\ t.predict = 1 /\ Transcribable(user) /\ Predict(ci, st, user, E) # out THEN <<"fn:predicted", i>>
+       ELSE FnFrom(t, i + 1, E \cup {low}, faithful /\ low = outl /\ Transcribable(user))
 
 JFn(t) ==
   LET v == FnFrom(t, 1, {t.pre[i] : i \in 1..Len(t.pre)}, TRUE) IN
@@ -63,7 +69,9 @@ JFn(t) ==
   ELSE (* contents.plist read back is exactly the map glyph name -> file name, one to one *)
     LET want == {<<UnRle(t.steps[i].u), UnRle(t.steps[i].out)>> : i \in 1..Len(t.steps)}
         got == {<<t.contents[i][1], t.contents[i][2]>> : i \in 1..Len(t.contents)}
-    IN IF want # got \/ Cardinality({p[2] : p \in got}) # Cardinality({p[1] : p \in got}) THEN <<"fn:contents-bijection">> ELSE <<"ok">>
+    IN IF want # got \/ Cardinality({p[2] : p \in got}) # Cardinality({p[1] : p \in got}) THEN <<"fn:contents-bijection">>
+       ELSE IF {t.disk[i] : i \in 1..Len(t.disk)} # {p[2] : p \in got} THEN <<"fn:contents-disk">>   \* files on disk = files listed
+       ELSE <<"ok">>
 
 (* ---- axis maps ---------------------------------------------------------------- *)
 Rt(p) == <<p[1], p[2]>>
